@@ -209,6 +209,70 @@ def _sim_history(c, K, recount=True, coherence=False):
     return rec, market, strategy
 
 
+def h10e(c):
+    """a trade that completed while a request for one of its orders was in flight, the late response applied to it, and the trade then
+    re-used for a further order whose placement ends in every symbolic way (rests, fails, fills at once, rests then is cancelled in full):
+    the trade is complete exactly when all its orders are, never left pending, the runner is not locked"""
+    with cm.config_set(simulated=True):
+        fl, (client,), (strategy,) = cm.new_sim(strategy_kwargs=dict(max_live_trade_count=1, max_trade_count=5, multi_order_trades=c.choose("multi_order_trades", [False, True])))
+        mw = fl._market_middleware[0]
+        bk = cm.book([cm.runner(1, atb=[{"price": 1.5, "size": 100.0}], atl=[{"price": 4.0, "size": 100.0}]), cm.runner(2)], version=7)
+        market = cm.add_market(fl, bk)
+        mw(market)
+        T = Trade(cm.MID, 1, 0, strategy)
+        o1 = T.create_order("BACK", cm.LimitOrder(2.0, 5.0))
+
+        def run_queue():
+            while fl.handler_queue:
+                client.execution.handler(fl.handler_queue.pop(0))
+            fl._process_simulated_orders(market)
+
+        with c.guard("first-order"):
+            market.place_order(o1)
+            run_queue()
+            req = c.choose("request_in_flight", ["cancel", "update", "replace", "none"])
+            if req == "cancel":
+                market.cancel_order(o1)
+            elif req == "update":
+                market.update_order(o1, "PERSIST")
+            elif req == "replace":
+                market.replace_order(o1, 2.5)
+            # the order completes while that request is in flight
+            sim = o1.simulated
+            sim.matched = sim.matched + [[cm.T0_MS, 2.0, sim.size_remaining]]
+            sim.size_matched = cm.total([f[2] for f in sim.matched])
+            fl._process_simulated_orders(market)
+            c.ob("trade-complete-after-first-order", T.status == lc.TradeStatus.COMPLETE)
+            run_queue()  # the late response
+        lc.recount_runner_context(c, strategy, market, tag="after-late-response")
+        how = c.choose("second_order_placed", ["directly", "inside-with-trade"])
+        outcome = c.choose("second_order_outcome", ["rests", "placement-fails", "fills-at-once", "rests-then-cancelled"])
+        c.tag("request", req); c.tag("outcome", outcome)
+        with c.guard("second-order"):
+            o2 = T.create_order("BACK", cm.LimitOrder(2.0 if outcome != "fills-at-once" else 1.5, 5.0))
+            if how == "directly":
+                ok = market.place_order(o2)
+            else:
+                with T:
+                    ok = market.place_order(o2)
+            c.ob("re-used-trade.order-accepted", ok is True)
+            if ok:
+                if outcome == "placement-fails":
+                    market.market_book.status = "SUSPENDED"
+                run_queue()
+                market.market_book.status = "OPEN"
+                if outcome == "rests-then-cancelled":
+                    market.cancel_order(o2)
+                    run_queue()
+                c.cover("trade-reused")
+        lc.recount_runner_context(c, strategy, market, tag="end")
+        if all(o.complete for o in market.blotter):
+            rc = strategy.get_runner_context(cm.MID, 1, 0)
+            probe = Trade(cm.MID, 1, 0, strategy).create_order("BACK", cm.LimitOrder(2.0, 5.0))
+            c.ob("not-locked-out-after-all-complete", strategy.validate_order(rc, probe) is True, live=len(rc.live_trades), trade_status=T.status.name)
+            c.cover("all-complete")
+
+
 def h10c(c, K=3):
     """K-step public-API histories in simulation with the recount after every step"""
     with cm.config_set(simulated=True):
@@ -299,6 +363,7 @@ HARNESSES = [
     Harness("H10a", h10a, pattern="P1 kernel-with-oracle", clock_modules=("flumine.strategy.runnercontext",), requires=["accepted", "refused"]),
     Harness("H10b-sim", h10b_sim2, quick=dict(n=2), pattern="P2 inductive step", requires=["handled"]),
     Harness("H10b-live", h10b_live, quick=dict(n=1), thorough=dict(n=2), pattern="P5 + recount", requires=["handled"], max_paths=(300000, 3000000)),
+    Harness("H10e", h10e, pattern="P5 (late response on a completed trade) + P3", requires=["trade-reused", "all-complete"], selfcheck=False),
     Harness("H10c", h10c, quick=dict(K=3), thorough=dict(K=4), pattern="P3 bounded history", requires=["placed", "refused", "filled", "all-complete", "trade-completed"],
             max_paths=(300000, 3000000), wall_s=(300, 3000)),
 ]
